@@ -50,6 +50,7 @@ func runC05(p *Program, e *Engine, r *Result, tier string) {
 	}
 	c05R1(a, "C05.R1")
 	c05R2(a, "C05.R2", a.roots())
+	c05R5(a)
 	c05R3(a)
 	c05R4(a, "C05.R4")
 }
@@ -249,6 +250,27 @@ func precedesAlways(u, v *Visit) bool {
 	}
 	h, _, err := implies(v.Cond, u.Cond)
 	return err == nil && h
+}
+
+// R5: Add, Remove and WatchList perform no blocking channel operation at all - not even one with a done case: such a wait
+// ends only when the reader gets to some record, i.e. when somebody consumes events.
+func c05R5(a *An) {
+	for _, name := range []string{"AddWith", "Remove", "WatchList"} {
+		m := a.Ro.API[name]
+		if m == nil {
+			continue
+		}
+		var found []string
+		n := 0
+		for _, v := range a.walk(m).Visits {
+			n++
+			if desc, blocking := blockingOp(v.Ctx, v.Instr); blocking {
+				found = append(found, a.P.instrPos(v.Instr)+" "+desc+" in "+shortFn(v.Instr.Parent()))
+			}
+		}
+		a.R.ob("C05.R5", name+":no-channel-wait", "the control call waits on no channel (its completion must not depend on the reader's progress or on a consumer)", a.P.pos(m.Pos()), len(found) == 0,
+			sprintf("%d instructions in all contexts; blocking channel operations: %s", n, fmtList(found)))
+	}
 }
 
 // R3: close(done) guarded; Close returns without blocking when already closed.
